@@ -354,6 +354,11 @@ def _hist_oracle(a, ires):
     S = _initial_state(a)
     if ires[0][0] == 1:
         if S is not None and _in_range(S):
+            if a[0][0] == 2 and (S["shf"] != 1 or S["dlen"] != len(S["app"]) + 6) and ires[0][1] in (1, 2, 3):
+                # from_composite_fields given a header that cannot be a telecommand's (no secondary header flag, a data
+                # length that is not that of the parts): today it is kept and the object packs octets its own decoder
+                # refuses; refusing the header at construction with ValueError is as good
+                return None
             return ("C02/PusTc/valid-refused", "valid construction (path %d) raised %s: %s" % (a[0][0], ires, a[0]))
         return None
     if S is None:
@@ -417,13 +422,28 @@ def _hist_oracle(a, ires):
         if k in (3, 4, 5, 6, 9, 10, 11, 22, 23, 24, 30, 31):
             S["fresh"] = False
         if k in (3, 9, 10):
+            new_app = (S["app"] if k == 10 else []) + list(o[1:])
             if not ok:
+                if len(new_app) + 6 > 65535 and st[1:2] and st[1] in (1, 2, 3):
+                    # application data that no longer fits a space packet (today: refused by the next pack): refused by the
+                    # assignment with ValueError, nothing assigned.  k == 10 extended the caller's own buffer in place
+                    # before handing it over again, so what the object then holds is the caller's doing: not predicted
+                    if k == 10:
+                        return None
+                    continue
                 return ("C11/PusTc.app_data/raises", where + " raised %s" % st)
-            S["app"] = (S["app"] if k == 10 else []) + list(o[1:])
+            S["app"] = new_app
             S["dlen"] = len(S["app"]) + 6
             continue
         if k in (4, 5, 6, 30, 31):
+            key = {4: "count", 5: "apid", 6: "source_id"}.get(k) or (_HDR_KEYS[o[1]] if k == 30 else _SEC_KEYS[o[1]])
+            val = o[2] if k in (30, 31) else o[1]
             if not ok:
+                if not 0 <= val < _RANGES[key] and st[1:2] and st[1] in (1, 2, 3):
+                    # a value the field cannot hold (today: stored, and refused / mis-encoded by the next serialiser): the
+                    # setter may refuse it at once with ValueError; nothing is assigned then - the tracked values stay, and
+                    # every later getter / pack / view of this history is judged against them (object unchanged)
+                    continue
                 return ("C11/PusTc.setter/raises", where + " raised %s" % st)
             if k == 4: S["count"] = o[1]
             elif k == 5: S["apid"] = o[1]
